@@ -71,6 +71,33 @@ def strategy(draw):
                 response=resp, differentiate=draw(st.booleans()), tone_bin=draw(st.integers(3, 12)), pre_fft=draw(st.sampled_from([None, 2 ** 15, "record-length"])))
 
 
+BIG = {"quick": 16, "thorough": 128}
+
+
+@st.composite
+def strategy_big(draw):
+    """Long windows: 2^14 .. 2^17.2 samples (beyond the 2^15 minimum FFT length), 1-3 windows, FFT length None /
+    32768 / 65536 / 131072 / record length."""
+    case = draw(strategy())
+    n = draw(gen.big_size(2 ** 14, 150_000))
+    case["n"] = n
+    wins = case["windows"][:draw(st.sampled_from([1, 2, 3]))]
+    for w in wins:
+        w["n"] = n
+    case["windows"] = wins
+    fft = draw(st.sampled_from([None, None, 2 ** 15, 2 ** 16, 2 ** 17, "record-length"]))
+    nfft = n if fft == "record-length" else max(oracle.nextpow2(n), fft or 0)
+    case["fft"] = fft
+    case["pre_fft"] = draw(st.sampled_from([None, 2 ** 15, 2 ** 16, "record-length"]))
+    op, bw = case["op"], case["bw"]
+    fcs = draw(gen.center_frequencies(op, bw, 1.0 / (nfft * case["dt"]), 0.5 / case["dt"], max_size=8))
+    if fcs is None:
+        op, bw = "konno_and_ohmachi", 40.0
+        fcs = draw(gen.center_frequencies(op, bw, 1.0 / (nfft * case["dt"]), 0.5 / case["dt"], max_size=8))
+    case.update(op=op, bw=bw, fcs=fcs, big=True)
+    return case
+
+
 def warmup():
     from . import c02
     c02.warmup()
@@ -92,7 +119,7 @@ def check_case(case):
     dt, n, width = case["dt"], case["n"], case["width"]
     arrays = [gen.expand_recording_arrays(w) for w in case["windows"]]
     nwin = len(arrays)
-    labels = [f"fft={case['fft']}"]
+    labels = [f"fft={case['fft']}"] + (["big-2^%d-samples" % int(math.log2(n))] if case.get("big") else [])
     TS, R = hv.TimeSeries, hv.SeismicRecording3C
     recs = [R(TS(a, dt), TS(b, dt), TS(c, dt)) for a, b, c in arrays]      # re-used across calls on purpose
 
